@@ -192,7 +192,7 @@ def run_tlc_in(wd, module, cfg, env=None, workers=None, heap="6g", timeout=900, 
         shutil.copy(f, wd)
     write_kfopen(wd)
     cmd = ["java", "-XX:+UseParallelGC", "-Xmx" + heap, "-Xss512m", "-cp", JAR + ":" + CM, "tlc2.TLC",
-           "-workers", str(workers or NCPU), "-metadir", os.path.join(wd, "meta"), "-config", cfg]
+           "-workers", str(workers or NCPU), "-maxSetSize", "20000000", "-metadir", os.path.join(wd, "meta"), "-config", cfg]
     if extra:
         cmd += extra
     cmd.append(module + ".tla")
